@@ -377,8 +377,16 @@ async fn exec(w: &mut World, log: &mut Log, st: &mut Stats, line: &str, cluster:
             }
         }
     }
-    // `exit a kill` is logged as `exit a` (the model does not distinguish)
-    let logged = if t.first() == Some(&"exit") && t.len() > 2 { format!("exit {}", t[1]) } else { line.to_string() };
+    // `exit a kill` is logged as `exit a` (the model does not distinguish); a join/leave is logged
+    // with the actors that exist (a shrunk replay may name actors whose creation was cut away)
+    let logged = if t.first() == Some(&"exit") && t.len() > 2 {
+        format!("exit {}", t[1])
+    } else if (t.first() == Some(&"join") || t.first() == Some(&"leave")) && t.len() == 4 {
+        let ks: Vec<String> = parse_ks(t[3]).iter().filter(|k| w.cells.contains_key(k)).map(|k| k.to_string()).collect();
+        format!("{} {} {} {}", t[0], t[1], t[2], if ks.is_empty() { "-".to_string() } else { ks.join(",") })
+    } else {
+        line.to_string()
+    };
     log.rec(logged, w.observe());
 }
 
@@ -606,6 +614,15 @@ mod thr {
             .collect()
     }
 
+    /// the group keys / world scopes whose listener list currently contains the actor
+    fn listener_keys(x: &ActorCell) -> (Vec<(u64, u64)>, Vec<u64>) {
+        let snap = pg::verif_snapshot();
+        (
+            snap.map.iter().filter(|(_, _, _, lis)| lis.contains(&x.get_id())).map(|(s, g, _, _)| (scope_back(s), group_back(g))).collect(),
+            snap.world.iter().filter(|(_, _, lis)| lis.contains(&x.get_id())).map(|(s, _, _)| scope_back(s)).collect(),
+        )
+    }
+
     pub fn run_case(log: &mut Log, st: &mut Stats, seed: u64) {
         let mut rng = Rng::new(seed);
         let n_actors = rng.range(3, 4);
@@ -728,6 +745,7 @@ mod thr {
             last = Some(tid);
             let x_dead_before = x.get_status() >= ActorStatus::Stopping;
             let members_before = member_keys(&x);
+            let listeners_before = listener_keys(&x);
             let line = cur.lock().unwrap().clone();
             ctls[tid].grant();
             if tid == 0 && point == "h.waited" {
@@ -742,7 +760,15 @@ mod thr {
             let op: Option<String> = if tid == 0 {
                 match point {
                     "status.publish" if !x_dead_before && x.get_status() >= ActorStatus::Stopping => Some(format!("dead {exiter}")),
-                    "status.pg_demonitor" => Some(format!("demonall {exiter}")),
+                    "status.pg_demonitor" => Some(format!("demontake {exiter}")),
+                    "pg.demonitor_all.key" => {
+                        let after = listener_keys(&x);
+                        listeners_before.0.iter().find(|k| !after.0.contains(k)).map(|(s, g)| format!("demonkey {exiter} {s} {g}"))
+                    }
+                    "pg.demonitor_all.wkey" => {
+                        let after = listener_keys(&x);
+                        listeners_before.1.iter().find(|k| !after.1.contains(k)).map(|s| format!("demonwkey {exiter} {s}"))
+                    }
                     "status.pg_leave" => Some(format!("takemem {exiter}")),
                     "pg.leave_all.key" => {
                         // which forward entry did this iteration take the exiter out of?
